@@ -112,6 +112,29 @@ def oracle_sequence(chk, cfg, files, outs, case):
             return
 
 
+def link_entries(chk, stats):
+    """An entry that is a symbolic link to a file in ANOTHER directory counts in the directory it stands in."""
+    import os
+    from cli_driver import run_cli
+    from sandbox import Sandbox
+    for tpl, names in (("%Count()%Ext()", {"0.txt", "1.txt"}), ("%Count(start=5,step=5,width=2)%Ext()", {"05.txt", "10.txt"})):
+        for extra in ([], ["-s", "%Name()"]):
+            with Sandbox() as root:
+                for d in ("t/a", "t/b"):
+                    os.makedirs(os.path.join(root, d))
+                for rel in ("t/a/x.txt", "t/a/y.txt", "t/b/p.txt"):
+                    with open(os.path.join(root, rel), "w") as fh:
+                        fh.write(rel)
+                os.symlink("../a/x.txt", os.path.join(root, "t/b/l.txt"))
+                res = run_cli(["-r"] + extra + ["--", tpl, os.path.join(root, "t")], root, root=root, snapshots=False, trace=False)
+                got = {d: set(os.listdir(os.path.join(root, "t", d))) for d in ("a", "b")}
+            chk.count(("count-link-entry", tpl, tuple(extra)))
+            stats["link_entry_runs"] = stats.get("link_entry_runs", 0) + 1
+            if res.status != 0 or got != {"a": names, "b": names}:
+                chk.oracle_fail("a directory holding a file and a link to a file elsewhere: status %s, names %r, expected %r in both directories" % (
+                    res.status, {k: sorted(v) for k, v in got.items()}, sorted(names)), {"template": tpl, "argv": ["-r"] + extra + [tpl, "<root>/t"], "stderr": res.stderr[-200:]})
+
+
 def cli_stream(chk, rng, n, stats):
     """%Count through the real command line: options that only concern what is printed (-v, -q), a dry run before the real run,
     recursion and several input directories must not change the numbers.  Expected names from the property itself:
@@ -331,6 +354,7 @@ def run(chk):
         chk.corr_fail("Corr.CountCorr.multi_case_ok (several Count tags in one template)", metas2[m])
 
     cli_stream(chk, rng, 120 if chk.tier == "quick" else 3000, stats)
+    link_entries(chk, stats)
     # whole-program model against the real command line (templates with %Count among them), no plan injection
     import whole
     import random as _random
